@@ -950,7 +950,7 @@ class CompressedBlockColumn(Column):
                 startdoc = block[0]
                 enddoc = block[1]
                 if startdoc > (last + 1):
-                    for _ in xrange(startdoc - last):
+                    for _ in xrange(startdoc - (last + 1)):
                         yield emptybytes
                 values = self._get_block(i)
                 for docnum in xrange(startdoc, enddoc + 1):
@@ -959,9 +959,8 @@ class CompressedBlockColumn(Column):
                     else:
                         yield emptybytes
                 last = enddoc
-            if enddoc < self._doccount - 1:
-                for _ in xrange(self._doccount - enddoc):
-                    yield emptybytes
+            for _ in xrange(self._doccount - (last + 1)):
+                yield emptybytes
 
 
 class StructColumn(FixedBytesColumn):
